@@ -2,6 +2,7 @@ import ConfModel.Driver.Common
 import ConfModel.Model.TracerSlots
 import ConfModel.Model.Builder
 import ConfModel.Spec.Handoff
+import ConfModel.Spec.HandoffGlue
 namespace ConfModel.Driver.C16
 open Lean ConfModel.Driver ConfModel ConfModel.Handoff
 
@@ -211,6 +212,226 @@ def resultsVerdict (inp impl : Json) : Verdict :=
       cls := "results:" ++ report,
       why := if !spec.1 then "runner's waiter: " ++ spec.2 else model.2 }
 
+/-! ### the reference client's per-call hand-off, op `wire` -/
+
+def parseWireOp (s : String) : Option WireHandoff.Op :=
+  match s.splitOn ":" with
+  | ["w", k] => k.toNat?.map .begin
+  | ["x", k] => k.toNat?.map .ctxDone
+  | ["c", k, t] => match k.toNat?, t.toNat? with
+    | some k, some t => some (.complete k t)
+    | _, _ => none
+  | ["g", k] => k.toNat?.map .grace
+  | ["j", k] => k.toNat?.map .join
+  | ["p", k] => k.toNat?.map .peek
+  | _ => none
+
+def renderWireObs : WireHandoff.Obs → String
+  | .none => ""
+  | .trace t => s!"t{t}"
+  | .waiting => "waiting"
+  | .notFound => "nf"
+  | .notConfigured => "nc"
+  | .busy => "busy"
+  | .idle => "idle"
+  | .panic => "panic"
+
+/-- the class of a wire script, for the evidence: how the first wait that has to wait ends, and
+whether the context of its call was already done when it began -/
+def wireClass (ctx : List String) (ops : List WireHandoff.Op) : String :=
+  let rec go (hist : List WireHandoff.Op) : List WireHandoff.Op → String
+    | [] => ""
+    | .begin k :: rest =>
+      if (HandoffGlue.firstTrace k hist).isSome then go (hist ++ [.begin k]) rest
+      else
+        let ctxDone := (ctx.getD k "") == "cancelled" || (ctx.getD k "") == "expired" ||
+          hist.any (fun o => o == .ctxDone k)
+        let ends := (rest.find? (fun o => match o with
+          | .complete j _ => j == k | .grace j => j == k | _ => false))
+        (match ends with
+          | some (.complete _ _) => "completed-while-waiting"
+          | some (.grace _) => "grace-period-ends"
+          | _ => "wait-open") ++ (if ctxDone then ",ctx-done-before-wait" else "")
+    | o :: rest => go (hist ++ [o]) rest
+  go [] ops
+
+def wireVerdict (inp impl : Json) : Verdict :=
+  if bool (field impl "setAside") then
+    { agree := true, holds := true, nontrivial := false, cls := "set-aside-too-slow" } else
+  match (strList (field inp "steps")).mapM parseWireOp with
+  | none => bad "unparsable wire step"
+  | some ops =>
+    let ctx := strList (field inp "ctx")
+    let bare := (ctx.zipIdx.filter (fun p => p.1 == "bare")).map (·.2)
+    -- contexts that are done from the start: context events before everything else
+    let pre : List WireHandoff.Op :=
+      (ctx.zipIdx.filter (fun p => p.1 == "cancelled" || p.1 == "expired")).map (fun p => .ctxDone p.2)
+    let all := pre ++ ops
+    let model := ((WireHandoff.exec (WireHandoff.init bare) all).2.drop pre.length).map renderWireObs
+    let spec := ((HandoffGlue.specObs bare all).drop pre.length).map renderWireObs
+    let obs := strList (field impl "obs")
+    -- giving up before the grace period is over loses nothing when nothing is ever completed:
+    -- that is a disagreement with the model, not a violation
+    let okAt (p : String × String) : Bool := p.1 == p.2 || (p.1 == "nf-early" && p.2 == "nf")
+    let holdsObs := obs.length == spec.length && (obs.zip spec).all okAt
+    -- the Tracer behind the wireTracer gets every completed trace, once
+    let names := (List.range ctx.length).map (fun k => s!"call-{k}")
+    let slotOps : List TracerSlots.Op := names.map .init ++
+      ops.filterMap (fun o => match o with | .complete k t => some (.complete s!"call-{k}" t) | _ => none)
+    let innerSpec := if bool (field inp "tracer") then
+        names.map (fun n => match firstComplete n slotOps with | some t => s!"t{t}" | none => "ctx")
+      else []
+    let innerModel := if bool (field inp "tracer") then
+        names.map (fun n => match (TracerSlots.step (TracerSlots.exec TracerSlots.init slotOps).1 (.await 100 n)).2 with
+          | [.trace t] => s!"t{t}" | [.waiting] => "ctx" | _ => "err")
+      else []
+    let inner := strList (field impl "inner")
+    let holds := holdsObs && inner == innerSpec
+    { agree := obs == model && model == spec && inner == innerModel, holds := holds,
+      nontrivial := ops.any (fun o => match o with | .begin _ => true | _ => false) &&
+        ops.any (fun o => match o with | .complete _ _ => true | _ => false),
+      model := toJson model, cls := wireClass ctx ops,
+      why := if !holdsObs then "per-call waiter (examineWireDetails): " ++ firstMismatch obs (spec.map (fun x => [x]))
+             else if inner != innerSpec then s!"the Tracer behind the wireTracer holds {inner}, the completed traces are {innerSpec}"
+             else if model != spec then "driver: model and history specification differ" else "" }
+
+/-! ### the server-side middleware hands over a final trace, op `final` -/
+
+def parseKey (s : String) : HandlerTrace.Key :=
+  if s.startsWith "Trailer:" then .pre (String.ofList (s.toList.drop 8)) else .plain s
+
+def parseAct (j : Json) : Option HandlerTrace.Act :=
+  let key := str (field j "key")
+  let ok := key != "Trailer" && key != ""
+  match str (field j "k") with
+  | "set" => if ok then some (.set (parseKey key) (str (field j "val"))) else none
+  | "add" => if ok then some (.add (parseKey key) (str (field j "val"))) else none
+  | "declare" => some (.declare (strList (field j "names")))
+  | "declareAdd" => some (.declareAdd (strList (field j "names")))
+  | "wh" => some (.writeHeader (nat (field j "s")))
+  | "w" => some (.write (bool (field j "ok")))
+  | "flush" => some .flush
+  | "readEof" => some .readEof
+  | "readErr" => some .readErr
+  | "closeReq" => some .closeReq
+  | "cancel" => some .cancel
+  | "panic" => some .panic
+  | _ => none
+
+def closerName : HandlerTrace.Closer → String
+  | .respEnd => "respEnd" | .respEndErr => "respEndErr" | .respEndPanic => "respEndPanic"
+  | .reqEndErr => "reqEndErr" | .cancel => "cancel" | .build => "build"
+
+def keyName : HandlerTrace.Key → String
+  | .plain n => n
+  | .pre n => "Trailer:" ++ n
+
+/-- canonical form of a header map: "key=v1,v2" sorted -/
+def canonHdr (h : List (String × List String)) : List String :=
+  sortStrings (h.map fun p => p.1 ++ "=" ++ ",".intercalate p.2)
+
+structure CSnap where
+  closer : String
+  hasResp : Bool
+  status : Nat
+  header : List String
+  trailer : List String
+deriving BEq, Repr
+
+def snapOfModel (s : HandlerTrace.Snap) : CSnap :=
+  match s.resp with
+  | some r => ⟨closerName s.closer, true, r.status, canonHdr (r.header.map fun p => (keyName p.1, p.2)), canonHdr r.trailer⟩
+  | none => ⟨closerName s.closer, false, 0, [], []⟩
+
+def pairsOf (j : Json) : List (String × List String) :=
+  (arr j).map fun e => match strList e with
+    | k :: vs => (k, vs)
+    | [] => ("", [])
+
+/-- the event that completed the trace, read from the rendered events of the implementation;
+"open" if the last event is not a finishing one -/
+def closerOfEvents (events : List String) (err : String) : String :=
+  match events.getLast? with
+  | some "pe:nil" => "respEnd"
+  | some "QC" => "cancel"
+  | some e =>
+    if e.startsWith "pe:" then (if err == "panic" then "respEndPanic" else "respEndErr")
+    else if e.startsWith "qe:" && e != "qe:nil" then "reqEndErr"
+    else "build"
+  | none => "build"
+
+def finishing (e : String) : Bool :=
+  e.startsWith "pe:" || e == "QC" || e == "PX" || (e.startsWith "qe:" && e != "qe:nil")
+
+def snapOfImpl (j : Json) : Option CSnap :=
+  if isNull j then none else
+  some ⟨closerOfEvents (strList (field j "events")) (str (field j "err")), bool (field j "hasResp"),
+    nat (field j "status"), canonHdr (pairsOf (field j "header")), canonHdr (pairsOf (field j "trailer"))⟩
+
+def showSnap : Option CSnap → String
+  | none => "none"
+  | some s => s!"[{s.closer} status={s.status} header={s.header} trailer={s.trailer}]"
+
+def finalVerdict (inp impl : Json) : Verdict :=
+  match (arr (field inp "acts")).mapM parseAct with
+  | none => bad "unparsable handler action"
+  | some acts =>
+    let s := HandlerTrace.run acts
+    let mAt := (HandlerTrace.atCompletion s).map snapOfModel
+    let mFin := (HandlerTrace.finalView s).map snapOfModel
+    let completions := nat (field impl "completions")
+    let atc := snapOfImpl (field impl "atComplete")
+    let fin := snapOfImpl (field impl "final")
+    let wake := snapOfImpl (field impl "atWake")
+    let wfin := snapOfImpl (field impl "waiterFinal")
+    let wantW := str (field inp "waiter")
+    let gotW := str (field impl "waiter")
+    let events := strList (field (field impl "atComplete") "events")
+    let eventsFin := strList (field (field impl "final") "events")
+    -- (1) exactly once, and the completing event is the last and only finishing event recorded
+    let once := completions == 1 && atc.isSome &&
+      (events.filter finishing).length ≤ 1 && (events.dropLast.all (fun e => !finishing e))
+    -- (2) final: nothing is written to the trace after it was handed over
+    let final := atc == fin && events == eventsFin
+    -- (3) the waiter obtains that trace: a blocked one sees at its wake-up what was completed,
+    -- a late one what is there at the end; what it holds does not change afterwards
+    let waiterOK := if wantW == "none" then gotW == "none"
+      else gotW == "t" && wfin == fin && (if wantW == "blocked" then wake == atc else wake == fin)
+    -- (4) complete: when the response ended with the handler (return or panic), the trailers in
+    -- the trace are those of the response
+    let declared := strList (field impl "declared")
+    let hdrEnd : HandlerTrace.Hdr := (pairsOf (field impl "headerAtEnd")).filterMap fun p =>
+      if p.1 == "Trailer" then none else some (parseKey p.1, p.2)
+    let trailerAt := pairsOf (field (field impl "atComplete") "trailer")
+    let hdrNames : List String := hdrEnd.map (fun (p : HandlerTrace.Key × List String) =>
+      match p.1 with | HandlerTrace.Key.plain n => n | HandlerTrace.Key.pre n => n)
+    let trNames : List String := trailerAt.map (fun (p : String × List String) => p.1)
+    let names : List String := (declared ++ hdrNames ++ trNames).eraseDups
+    let closer := (atc.map (·.closer)).getD ""
+    let complete := if closer == "respEnd" || closer == "respEndPanic" then
+        (atc.map (·.hasResp)).getD false && HandoffGlue.trailersOK declared hdrEnd trailerAt names
+      else true
+    -- finding F28: an operation ended early (request side / cancellation) after the response
+    -- started is written to when the handler finishes: only the trailers differ
+    let f28 := once && !final && (closer == "reqEndErr" || closer == "cancel") &&
+      (atc.map (·.hasResp)).getD false && events == eventsFin &&
+      (atc.map (fun a => (a.status, a.header))) == (fin.map (fun a => (a.status, a.header)))
+    let holds := once && final && waiterOK && complete
+    let agree := completions == 1 && atc == mAt.head? && fin == mFin.head? &&
+      (wantW == "none" || (gotW == "t" && wfin == mFin.head? && wake == (if wantW == "blocked" then mAt.head? else mFin.head?)))
+    { agree := agree, holds := holds,
+      nontrivial := trailerAt.length > 0 || acts.any HandoffGlue.isEarlyEnd,
+      model := toJson (showSnap mAt.head?),
+      cls := s!"{closer},waiter-{wantW}" ++ (if trailerAt.isEmpty then "" else ",trailers") ++
+        (if bool (field impl "gateTimeout") then ",gate-timeout" else ""),
+      why :=
+        if holds then (if agree then "" else s!"model: at completion {showSnap mAt.head?}, at the end {showSnap mFin.head?}; implementation: {showSnap atc} / {showSnap fin}")
+        else if f28 then s!"F28: the trace handed over when the operation was ended early ({closer}) is written to afterwards: trailers {(atc.map (·.trailer)).getD []} at completion, {(fin.map (·.trailer)).getD []} at the end"
+        else if !once then s!"{completions} deliveries, events {events}: the operation must hand over exactly one trace, completed by its last event"
+        else if !final then s!"the trace handed over is not final: at completion {showSnap atc} events {events}, at the end {showSnap fin} events {eventsFin}"
+        else if !waiterOK then s!"waiter ({wantW}): Await returned '{gotW}' with {showSnap wake}, completed was {showSnap atc}, at the end {showSnap fin} (waiter's view {showSnap wfin})"
+        else s!"the trace was handed over without the response's trailers: {trailerAt} at completion; announced {declared}, header map at the end {(pairsOf (field impl "headerAtEnd"))}" }
+
 def handle : Handler := fun op inp impl =>
   if !(isNull (field impl "panic")) then
     { agree := false, holds := false, why := "panic: " ++ str (field impl "panic") } else
@@ -246,6 +467,8 @@ def handle : Handler := fun op inp impl =>
         why := if okSpec then "" else s!"outcome setup={obsS} after={obsA} is produced by none of the {lins.length} linearisations" }
     | _, _, _ => bad "unparsable slot op"
   | "results" => resultsVerdict inp impl
+  | "wire" => wireVerdict inp impl
+  | "final" => finalVerdict inp impl
   | "cancelrt" => cancelVerdict impl false
   | "cancelhandler" => cancelVerdict impl true
   | "builder" =>
